@@ -69,10 +69,12 @@ impl<A: AcceptableMasterList, C: Clock, F: Filter, R: Rng, S: PtpInstanceStateMu
                 *time_properties_ds = announce.time_properties();
 
                 if let Some(tlv) = path_trace_tlv {
-                    // Cannot panic as `list` is large enough to contain up to a whole message
+                    // A message can be larger than what fits in `list`: never collect more
+                    // entries than it can hold
                     path_trace_ds.list = tlv
                         .value
                         .chunks_exact(8)
+                        .take(path_trace_ds.list.capacity())
                         .map(|ci| ClockIdentity(<[u8; 8]>::try_from(ci).unwrap()))
                         .collect();
                 }
